@@ -216,6 +216,47 @@ Theorem C05_same_address_twice :
 Proof. exact same_address_twice. Qed.
 Print Assumptions C05_same_address_twice.
 
+(* THE DEADLINE OVERTAKING THE OPENING OF A STREAM OR THE WRITE.  [send_bid_lat tr lat o a view D] is
+   the operational model in which, per provider, NewStream takes [open_d (lat p)] to open the stream
+   and WriteMsg then takes [write_d (lat p)]; the operations are issued one after the other and
+   [l_ops] records which were issued.  For every provider list, all latencies, all reply scripts and
+   every deadline D, on a transport whose three operations watch the context:
+   the channel is closed at some T <= D;
+   every delivery is a verified commitment embedding exactly the bid sent, carrying the recovered
+   address, made before D by a provider whose write had completed before D;
+   per provider, in topology order, one trace: WriteMsg is issued only if the stream was open
+   before D, ReadMsg (and with it verification and delivery) only if the write had completed
+   before D -- a provider whose open or write had not completed by D receives no further
+   operation; the signed bid is handed to WriteMsg exactly when WriteMsg is issued and nothing else
+   ever is. *)
+Theorem C05_fanout_deadline : forall tr lat o a view D r,
+  ctx_newstream tr = true -> ctx_write tr = true -> ctx_read tr = true ->
+  send_bid_lat tr lat o a view D = LRun r ->
+  construct o a = Ok (lr_sent r) /\
+  (exists T, lr_close r = At T /\ T <= D) /\
+  (forall t c, In (t, c) (lr_delivered r) ->
+     t < D /\
+     exists p c0 rest addr,
+       In p view /\ p_type p = TProvider /\ p_reply p = RFrames c0 rest /\
+       open_d (lat p) + write_d (lat p) < D /\
+       verify o c0 = Ok addr /\ c = set_prov c0 addr /\ c_prov c = addr /\ c_bid c = Some (lr_sent r)) /\
+  Forall2 (fun p g =>
+             l_addr g = p_addr p /\
+             (In OpWrite (l_ops g) -> open_d (lat p) < D /\ p_reply p <> RNewStreamErr) /\
+             (In OpRead (l_ops g) -> open_d (lat p) + write_d (lat p) < D /\ p_reply p <> RWriteErr) /\
+             (l_written g = [lr_sent r] <-> In OpWrite (l_ops g)) /\
+             (l_written g = [] \/ l_written g = [lr_sent r]))
+          (get_peers TProvider view) (lr_traces r).
+Proof. exact fanout_deadline. Qed.
+Print Assumptions C05_fanout_deadline.
+
+(* With all latencies 0 this model is [send_bid_op] (the operations issued are forgotten), so the
+   theorems above and the checker are statements about the latency-free instance of it. *)
+Theorem C05_lat0_is_op : forall tr o a view D,
+  forget_result (send_bid_lat tr lat0 o a view D) = send_bid_op tr o a view D.
+Proof. exact lat0_is_op. Qed.
+Print Assumptions C05_lat0_is_op.
+
 (* ---- composition with C02, C03 and C19 (proofs/Compose_bidder.v) -------------------------------------
    In the theorems above the signer is an oracle pair.  Below it is the signer model itself, for an
    arbitrary hash function K and crypto library cr:
